@@ -230,9 +230,14 @@ enum Topo {
     /// like Caught, but the panicking call is made on a clone that has lent another clone of the
     /// mock (make_ref) and is dropped by the unwinding itself
     CaughtLendingClone,
+    /// the original is dropped by a caught unwinding while a clone lives on; the clone is used again
+    CaughtCloneSurvivesOriginal,
+    /// the original holds 20 000 lent values and is dropped by the unwinding of a thread with a
+    /// 256 KiB stack
+    LongChainUnwoundOnSmallStack,
 }
 
-const TOPOS: [Topo; 16] = [
+const TOPOS: [Topo; 18] = [
     Topo::Plain,
     Topo::CloneOutlives,
     Topo::CloneDiesFirst,
@@ -249,6 +254,8 @@ const TOPOS: [Topo; 16] = [
     Topo::VerifyInGuard,
     Topo::VerifyInGuardCloneAlive,
     Topo::CaughtLendingClone,
+    Topo::CaughtCloneSurvivesOriginal,
+    Topo::LongChainUnwoundOnSmallStack,
 ];
 
 fn applicable(o: Origin, t: Topo) -> bool {
@@ -262,6 +269,8 @@ fn applicable(o: Origin, t: Topo) -> bool {
     match t {
         Topo::Caught | Topo::CaughtLendingClone => o.is_user() && !matches!(o, Origin::UserBefore | Origin::UserAfter | Origin::CloneErrorThenUserPanic),
         Topo::CaughtRetry => matches!(o, Origin::Matcher | Origin::Answer | Origin::RealFn | Origin::DefaultBody | Origin::RetClone),
+        Topo::CaughtCloneSurvivesOriginal => o.is_user() && !matches!(o, Origin::CloneErrorThenUserPanic),
+        Topo::LongChainUnwoundOnSmallStack => matches!(o, Origin::UserAfter | Origin::Answer | Origin::NoMatch),
         _ => true,
     }
 }
@@ -407,6 +416,38 @@ fn child(origin: Origin, topo: Topo, met: bool) -> ! {
             let u = original;
             let c = u.clone();
             act(&c, origin, met);
+        }
+        Topo::CaughtCloneSurvivesOriginal => {
+            let survivor = original.clone();
+            let r = std::panic::catch_unwind(std::panic::AssertUnwindSafe(move || {
+                let u = original;
+                act(&u, origin, met)
+            }));
+            println!("CAUGHT: {}", if r.is_err() { "err" } else { "ok" });
+            // the original is gone (quietly: its thread was unwinding); the clone still answers
+            let r = std::panic::catch_unwind(std::panic::AssertUnwindSafe(|| survivor.m(0)));
+            match r {
+                Ok(v) => println!("SURVIVOR: ok {v}"),
+                Err(p) => println!("SURVIVOR: err {}", vh::obs::payload_to_string(p).replace('\n', " | ")),
+            }
+            drop(survivor);
+            std::process::exit(0);
+        }
+        Topo::LongChainUnwoundOnSmallStack => {
+            let u = original;
+            let r = std::thread::Builder::new()
+                .stack_size(256 * 1024)
+                .spawn(move || {
+                    let u = u;
+                    for k in 0..20_000u64 {
+                        let _: &u64 = u.make_ref(k);
+                    }
+                    act(&u, origin, met);
+                })
+                .unwrap()
+                .join();
+            println!("JOINED: {}", if r.is_err() { "err" } else { "ok" });
+            std::process::exit(0);
         }
         Topo::VerifyInGuard | Topo::VerifyInGuardCloneAlive => {
             struct Guard(Option<Unimock>);
@@ -655,7 +696,22 @@ fn judge(origin: Origin, topo: Topo, met: bool, r: &CellResult) -> Result<(), St
             }
             Ok(())
         }
-        Topo::OriginalOnWorkerThread => {
+        Topo::CaughtCloneSurvivesOriginal => {
+            if r.status != Some(0) || !r.stdout.contains("CAUGHT: err") {
+                return Err(format!("expected the injected panic to be caught and the process to go on; status {:?}, stdout {}", r.status, r.stdout));
+            }
+            // m(0) is an exactly-once pattern: answered (1) unless the action already used it up
+            // (then the clone's call is one too many for the count, but still answered)
+            if !r.stdout.lines().any(|l| l == "SURVIVOR: ok 1") {
+                let got = r.stdout.lines().find(|l| l.starts_with("SURVIVOR:")).unwrap_or("no line");
+                return Err(format!("after the original was dropped by the caught unwinding, the surviving clone must still answer as configured, got {got:?}"));
+            }
+            if r.reports.is_empty() || !r.reports[0].contains(origin.first_report()) || r.reports.len() > 1 {
+                return Err(format!("expected exactly the injected panic report, got {:?}", r.reports));
+            }
+            Ok(())
+        }
+        Topo::OriginalOnWorkerThread | Topo::LongChainUnwoundOnSmallStack => {
             if !r.stdout.contains("JOINED: err") || r.status != Some(0) {
                 return Err(format!("expected the worker to unwind once and main to exit 0; status {:?}, stdout {}", r.status, r.stdout));
             }
